@@ -9,6 +9,7 @@ import (
 	"pgregory.net/rapid"
 
 	"verif/harness/ev"
+	"verif/harness/gen"
 )
 
 // C38: string interning is a bijection, also under concurrency.
@@ -114,10 +115,15 @@ func TestC38_InlineDomain(t *testing.T) {
 type c38Case struct {
 	Strings []string // the multiset, in per-goroutine round-robin order
 	G       int      // goroutines
+	Stats   bool     // the table records statistics (Table.RecordStats(true)), as ir.Session.RecordInternStats arranges
 }
 
 func c38Concurrent(c c38Case, r *ev.Rec) error {
 	var tb verifexport.InternTable
+	if c.Stats {
+		tb.RecordStats(true)
+		r.Label("stats-recording")
+	}
 	type res struct {
 		s  string
 		id verifexport.InternID
@@ -226,7 +232,7 @@ func c38Concurrent(c c38Case, r *ev.Rec) error {
 
 func TestC38_Concurrent(t *testing.T) {
 	ev.Run(t, ev.Spec[c38Case]{ID: "C38", Name: "Concurrent", Quick: 1500, Thorough: 60000,
-		Rule: "random string multisets (few distinct strings repeated many times; long, non-alphabet, trailing-dot, empty, 5/6-char boundary strings) interned round-robin by 1-16 goroutines released together, race detector on; oracle: same id for equal strings, different ids otherwise, Value(id)==s, Query present <=> interned or inline-encodable (model set); non-trivial = >=2 goroutines, a repeated string and a non-inline string; distinct by multiset+goroutine count",
+		Rule: "random string multisets (few distinct strings repeated many times; long, non-alphabet, trailing-dot, empty, 5/6-char boundary strings) interned round-robin by 1-16 goroutines released together (30%: every goroutine interns the same fresh strings in the same order, so that all of them meet in one insertion), half of the tables recording statistics, race detector on; oracle: same id for equal strings, different ids otherwise, Value(id)==s, Query present <=> interned or inline-encodable (model set); non-trivial = >=2 goroutines, a repeated string and a non-inline string; distinct by multiset+goroutine count",
 		Gen: func(t *rapid.T) c38Case {
 			pool := rapid.SliceOfN(rapid.OneOf(
 				rapid.StringMatching(`[a-zA-Z0-9_.]{0,7}`),
@@ -239,7 +245,20 @@ func TestC38_Concurrent(t *testing.T) {
 			for i := range ss {
 				ss[i] = rapid.SampledFrom(pool).Draw(t, "s")
 			}
-			return c38Case{Strings: ss, G: rapid.SampledFrom([]int{1, 2, 2, 3, 4, 8, 16}).Draw(t, "g")}
+			g := rapid.SampledFrom([]int{1, 2, 2, 3, 4, 8, 16}).Draw(t, "g")
+			if g >= 2 && gen.Pct(t, 30, "storm") {
+				// every goroutine interns the same fresh string at the same step (round-robin position i goes to
+				// goroutine i mod g): k strings, each g times in a row
+				k := 1 + gen.Uniform(t, 12, "nstorm")
+				ss = ss[:0]
+				for j := 0; j < k; j++ {
+					fresh := fmt.Sprintf("storm.%s.%d.not.inline", gen.Pick(t, pool, "stormbase"), j)
+					for x := 0; x < g; x++ {
+						ss = append(ss, fresh)
+					}
+				}
+			}
+			return c38Case{Strings: ss, G: g, Stats: gen.Pct(t, 50, "stats")}
 		},
 		Check: c38Concurrent})
 }
